@@ -227,6 +227,14 @@ def gen_cases(rec, rng, tier):
     conts = adapt.NFA_KINDS
     for i, R in enumerate(common.shard_slice(fag.enum_nfas(2, 2), rec)):
         yield {'kind': 'nfa', 'cls': 'enum_nfa', 'ref': R, 'n': 4, 'eps': ('', '_', 'ε', 'e')[i % 4], 'container': conts[(i // 4) % 3], 'sets': [list(R[0])]}
+    if thorough:
+        # sampled slices of the next enumeration levels
+        for i, R in enumerate(fag.enum_nfas(3, 1, 1)):
+            if len(R[0]) == 3 and i % 40 == (rec.seed % 40) and (i // 40) % rec.nshards == rec.shard:
+                yield {'kind': 'nfa', 'cls': 'enum_nfa_3_states_sampled', 'ref': R, 'n': 4, 'eps': ('', '_')[i % 2], 'container': conts[i % 4], 'sets': [list(R[0][:2])]}
+        for i, R in enumerate(fag.enum_dfas(4, 2, 2)):
+            if len(R[0]) == 4 and i % 60 == (rec.seed % 60) and (i // 60) % rec.nshards == rec.shard:
+                yield {'kind': 'dfa', 'cls': 'enum_dfa_4_states_sampled', 'ref': R, 'n': 5}
     # 2. hostile families, every container kind and epsilon symbol
     for (cls, R) in fag.hostile_nfas(rng):
         for eps in ('', '_', 'ε', 'e'):
@@ -248,17 +256,17 @@ def gen_cases(rec, rng, tier):
         R = fag.random_nfa(rng, n, 2, eps_density=rng.choice([0.2, 0.6]))
         yield {'kind': 'nfa_mutate', 'cls': 'requery_after_in_place_change', 'ref': R, 'n': 3, 'eps': rng.choice(['', '_']), 'container': rng.choice(conts), 'mseed': rng.randrange(10 ** 9)}
     # 3. seeded random
-    for _ in range(600 if thorough else 150):
+    for _ in range(2000 if thorough else 150):
         n = rng.randint(1, 7 if thorough else 6)
         k = rng.randint(0, 3)
-        R = fag.random_nfa(rng, n, k, eps_density=rng.choice([0.0, 0.2, 0.6, 1.0]), names=rng.choice([None, fag.random_names(rng, n)]))
+        R = fag.maybe_digits(rng, fag.random_nfa(rng, n, k, eps_density=rng.choice([0.0, 0.2, 0.6, 1.0]), names=rng.choice([None, fag.random_names(rng, n)])))
         cont = rng.choice(conts)
         yield {'kind': 'nfa', 'cls': 'random_nfa/' + cont, 'ref': R, 'n': {0: 3, 1: 8, 2: 6 if thorough else 5, 3: 5 if thorough else 4}[k],
                'eps': rng.choice(['', '_', 'ε', 'e']), 'container': cont, 'sets': _sets(rng, R)}
-    for _ in range(300 if thorough else 80):
+    for _ in range(1000 if thorough else 80):
         n = rng.randint(1, 8)
         k = rng.randint(1, 3)
-        R = fag.random_dfa(rng, n, k, names=rng.choice([None, fag.random_names(rng, n)]))
+        R = fag.maybe_digits(rng, fag.random_dfa(rng, n, k, names=rng.choice([None, fag.random_names(rng, n)])))
         yield {'kind': 'dfa', 'cls': 'random_dfa', 'ref': R, 'n': {1: 10, 2: 7 if thorough else 6, 3: 5}[k]}
 
 
